@@ -468,3 +468,51 @@ func (w *World) condHoldsDeep(root, fn *ssa.Function, in ssa.Instruction, cond s
 	}
 	return true
 }
+
+
+// inCallerTerms runs f once per call chain of fn below root (helper parameters
+// bound to the call chain's arguments, see callerEnvs) and reports whether f held
+// every time; for fn == root it runs f once without bindings.
+func (w *World) inCallerTerms(root, fn *ssa.Function, f func() bool) bool {
+	if fn == root {
+		return f()
+	}
+	envs := w.callerEnvs(fn, 0)
+	if len(envs) == 0 {
+		return false
+	}
+	for _, env := range envs {
+		if env != nil {
+			w.inlineEnv = append(w.inlineEnv, env)
+		}
+		ok := f()
+		if env != nil {
+			w.inlineEnv = w.inlineEnv[:len(w.inlineEnv)-1]
+		}
+		if !ok {
+			return false
+		}
+	}
+	return true
+}
+
+// findStoreDeep: a store `addr = val` (canonical, in root's terms) in root or in a
+// helper root calls (two levels), with the function that contains it.
+func (w *World) findStoreDeep(root *ssa.Function, addr, val string) (*ssa.Store, *ssa.Function) {
+	for _, fn := range w.withModuleCallees(root, 2) {
+		for _, b := range fn.Blocks {
+			for _, in := range b.Instrs {
+				st, ok := in.(*ssa.Store)
+				if !ok {
+					continue
+				}
+				if w.inCallerTerms(root, fn, func() bool {
+					return w.Canon(st.Addr) == addr && (val == "" || w.Canon(st.Val) == val || w.CanonI(st.Val) == val)
+				}) {
+					return st, fn
+				}
+			}
+		}
+	}
+	return nil, nil
+}
